@@ -494,6 +494,7 @@ class TNOps(TNCtor):
         tol = float(op.get('tol', 0.0))
         fnw = self.seams.wrapped['qr'] if which == 'qr' else self.seams.wrapped['split_matrix_svd']
         snap = self.snapshot_pool()
+        Ab0, q0b0, q1b0 = A.tobytes(), q0.tobytes(), q1.tobytes()
         self.env.begin_op(op.get('env', {}))
         exc = None
         out = None
@@ -505,8 +506,14 @@ class TNOps(TNCtor):
             self.env.end_op()
         self.compare_pool(snap, set(), 'operand_or_bystander_modified')
         if exc is not None:
-            self.check(False, ['C11'] if which == 'qr' else ['C12'], 'raised', f'{which} kernel: {type(exc).__name__}: {exc}')
             self.kernel_state = None
+            from .seams import InjectedBackendFailure
+            if isinstance(exc, InjectedBackendFailure):
+                # an injected backend failure may propagate; the caller's arrays must be intact (checked below)
+                self.check(A.tobytes() == Ab0 and q0.tobytes() == q0b0 and q1.tobytes() == q1b0, ['C19', 'C11' if which == 'qr' else 'C12'],
+                           'inputs_unmodified_after_failure', f'{which} kernel modified its arguments before failing')
+                return 'injected'
+            self.check(False, ['C11'] if which == 'qr' else ['C12'], 'raised', f'{which} kernel: {type(exc).__name__}: {exc}')
             return 'raised'
         self.kernel_state = {'which': which, 'A': A, 'q0': q0, 'q1': q1, 'qi': out[2] if which == 'qr' else out[3],
                              'out': [x for x in out if isinstance(x, np.ndarray)]}
